@@ -34,6 +34,18 @@ def blank_class(line: str) -> str:
     return "text"
 
 
+PREFIX_CHARS = " \t>0123456789.)-+*"
+
+
+def _ublank_residue(line: str) -> bool:
+    """The line's text after its container prefix is non-empty and consists only of characters str.strip() removes."""
+    i = 0
+    while i < len(line) and line[i] in PREFIX_CHARS:
+        i += 1
+    rest = line[i:]
+    return rest != "" and rest.strip() == ""
+
+
 ENDS_NONBLANK = ("paragraph_open", "heading_open", "hr", "code_block", "tr_open")
 
 
@@ -122,10 +134,18 @@ def _check_inline(t, tokens, i, lines, recs):
     is_lheading = prev is not None and prev.type == "heading_open" and prev.markup in ("=", "-")
     expect = e - b
     if len(clines) != expect:
-        # classify: a first/last line that Python strip() empties (Unicode blank) is the known defect class
+        # classify: the known defect class is "first/last lines of the map whose text (after the container prefix) consists only
+        # of Unicode blanks that Python's str.strip() removes although they are not space/tab"
         cls = "other"
         seg = lines[b:e]
-        if seg and (blank_class(seg[0]) == "unicode-blank-only" or blank_class(seg[-1]) == "unicode-blank-only"):
+        missing = expect - len(clines)
+        lead = 0
+        while lead < len(seg) and _ublank_residue(seg[lead]):
+            lead += 1
+        trail = 0
+        while trail < len(seg) - lead and _ublank_residue(seg[len(seg) - 1 - trail]):
+            trail += 1
+        if 0 < missing <= lead + trail:
             cls = "unicode-blank-line-stripped"
         recs.append({"key": "inline-line-count", "ttype": "inline", "cls": cls,
                      "detail": f"{len(clines)} content lines for map [{b},{e})"})
